@@ -16,54 +16,7 @@ verus! {
 //@include lemmas/owner_gate.rs
 //@include contracts/stage_specs2.rs
 
-// ---- the link builder (real code) ----
-//@take src/models/link/metadata.rs struct:LinkMetadataBuilder
-impl ByProducts { #[verifier::external_body] pub fn new() -> Self { unimplemented!() } }
-impl Default for Command { #[verifier::external_body] fn default() -> Self { unimplemented!() } }
-impl LinkMetadataBuilder {
-    // ghost view of the builder: the link it would build
-    pub closed spec fn st(self) -> LinkMetadata {
-        LinkMetadata { name: self.name, materials: self.materials, products: self.products, env: self.env, byproducts: self.byproducts, command: self.command }
-    }
-//@extract src/models/link/metadata.rs impl:LinkMetadataBuilder/fn:new props=C15
-//@end
-//@extract src/models/link/metadata.rs impl:LinkMetadataBuilder/fn:name props=C15
-//@mutself
-//@contract ret=r
-    ensures r.st() == (LinkMetadata { name: name, ..self.st() }),
-//@end
-//@extract src/models/link/metadata.rs impl:LinkMetadataBuilder/fn:materials props=C15
-//@mutself
-//@contract ret=r
-    ensures r.st() == (LinkMetadata { materials: materials, ..self.st() }),
-//@end
-//@extract src/models/link/metadata.rs impl:LinkMetadataBuilder/fn:products props=C15
-//@mutself
-//@contract ret=r
-    ensures r.st() == (LinkMetadata { products: products, ..self.st() }),
-//@end
-//@extract src/models/link/metadata.rs impl:LinkMetadataBuilder/fn:byproducts props=C15
-//@mutself
-//@contract ret=r
-    ensures r.st() == (LinkMetadata { byproducts: byproducts, ..self.st() }),
-//@end
-//@extract src/models/link/metadata.rs impl:LinkMetadataBuilder/fn:command props=C15
-//@mutself
-//@contract ret=r
-    ensures r.st() == (LinkMetadata { command: command, ..self.st() }),
-//@end
-//@extract src/models/link/metadata.rs impl:LinkMetadataBuilder/fn:build props=C15
-//@contract ret=r
-    ensures r is Ok, r->Ok_0 == self.st(),
-//@end
-}
-impl LinkMetadata {
-//@extract src/models/link/metadata.rs impl:LinkMetadata/fn:new props=C15
-//@contract ret=r
-    ensures r is Ok, r->Ok_0.name == name, r->Ok_0.materials == materials, r->Ok_0.products == products,
-            r->Ok_0.env == env, r->Ok_0.byproducts == byproducts, r->Ok_0.command == command,
-//@end
-}
+//@include contracts/link_builder.rs MODE=props=C15
 //@take src/models/layout/supply_chain_item.rs trait:SupplyChainItem
 impl SupplyChainItem for Step {
 //@extract src/models/layout/step.rs "impl:SupplyChainItem for Step/fn:name"
